@@ -1,6 +1,6 @@
 SPECIFICATION Spec
 CONSTANTS
-  K = 3
+  K = 1
   T = 2
   Deviations = {}
   WithInvalid = FALSE
